@@ -1,4 +1,5 @@
 pub mod c01;
+pub mod c02;
 pub mod c03;
 pub mod c06;
 pub mod c07;
@@ -12,6 +13,7 @@ use crate::evidence::{Ctx, Meta, Report};
 pub fn dispatch(ctx: &Ctx) -> Option<(Report, Meta)> {
     Some(match ctx.prop.as_str() {
         "C01" => c01::run(ctx),
+        "C02" => c02::run(ctx),
         "C03" => c03::run(ctx),
         "C06" => c06::run(ctx),
         "C07" => c07::run(ctx),
